@@ -51,8 +51,29 @@ def pretty(ev):
     return d
 
 
+def design_check(chk):
+    """FetchModel.tla: the read-once design satisfies the Contract under every adversary schedule; the two
+    re-reading designs (D22, C17-m7) are refuted by TLC - which keeps the Model honest about what it can see."""
+    spec = os.path.join(vp.SPEC, "MC_Fetch.tla")
+    r = vp.tlc(spec, os.path.join(vp.SPEC, "MC_Fetch_ReadOnce.cfg"), workers=2, timeout=300)
+    chk.add_tlc("MC_Fetch ReadOnce", r, "every interleaving of the three steps of a checked use with adversary writes of 11 "
+                "values: one value the cell held explains the outcome (Explained)")
+    if r.violated or not r.ok:
+        chk.violation("design check failed: %s violated in FetchModel.tla (read-once design)" % r.violated,
+                      {"tlc_tail": r.out[-3000:]})
+        return False
+    for v in ("ReadAtEveryMention", "ReadAgainAtTheUse"):
+        r = vp.tlc(spec, os.path.join(vp.SPEC, "MC_Fetch_%s.cfg" % v), workers=1, timeout=300)
+        if r.violated != "Explained":
+            raise vp.Broken("FetchModel.tla no longer refutes the re-reading design %s: %s" % (v, r.out[-800:]))
+    chk.cov["fetch_model_refutes_rereading_designs"] = 2
+    return True
+
+
 def judge(chk, wd, mode, prop, abis=("wasm32", "ilp64")):
     """runs the mode, reports violations; returns (number of events, set of distinct combinations)"""
+    if "fetch_model_refutes_rereading_designs" not in chk.cov and not design_check(chk):
+        return 0, set()
     events, bad = run(chk, wd, mode, abis)
     for ev in bad:
         if ev["e"] == "crash":
